@@ -765,7 +765,12 @@ def run_case(case):
                 if case['geo'].endswith('far') or case['geo'].startswith('g2'):
                     klass += ',map-coordinates'
                 edge = []
-                if case.get('edge'):
+                if case.get('edge') == 'all':
+                    cols_a, nbr_a = adjacency(geo)
+                    edge = sorted(set().union(*[nbr_a[i] for i in case['region']]) - set(case['region']))
+                    edge = [cols_a[i].name for i in edge]
+                    klass = klass.replace('edge=yes', 'edge=all-neighbours')
+                elif case.get('edge'):
                     edge = transition_columns(case, before)
                     stats['edge_columns'] = len(edge)
                     if not edge:
@@ -923,7 +928,14 @@ def refine_cases(gname, how, bisects=BISECT, edge_options=(False, True), whole=T
                     # their own neighbours must be refinable too
                     if not all(len(cols[j].node) in (3, 4) for i in outside for j in nbr[i]):
                         continue
-                    c['edge'] = True
+                    if e == 'all':
+                        # every outside neighbour of the region ("columns outside the edge of the refinement
+                        # area"): with a bisect mode some of them touch no refined side
+                        if not b:
+                            continue        # (without bisect: the same columns as the transition region)
+                        c['edge'] = 'all'
+                    else:
+                        c['edge'] = True
                 cases.append(c)
     if whole and all(len(c.node) in (3, 4) for c in cols):
         for b in bisects:
@@ -966,8 +978,8 @@ def all_cases(tier):
         except Exception:
             cases.append({'op': 'build', 'geo': gname})
 
-    family(refine_cases, 'r3x3', 'all')
-    family(refine_cases, 't8', 'all')
+    family(refine_cases, 'r3x3', 'all', edge_options=(False, True, 'all'))
+    family(refine_cases, 't8', 'all', edge_options=(False, True, 'all'))
     family(refine_cases, 'mixed6', 'all')
     family(split_cases, 'r3x3')
     family(split_cases, 'mixed6')
@@ -1001,8 +1013,8 @@ def all_cases(tier):
         family(refine_cases, 'g7', 'sample', bisects=[False, True])
         family(refine_cases, 'mixed6+decomposed', 'families')
     else:
-        family(refine_cases, 'r4x3', 'all')
-        family(refine_cases, 'mixed6+decomposed', 'all')
+        family(refine_cases, 'r4x3', 'all', edge_options=(False, True, 'all'))
+        family(refine_cases, 'mixed6+decomposed', 'all', edge_options=(False, True, 'all'))
         family(refine_cases, 'r3x3+refined', 'families')
         family(refine_cases, 'r4x3+refined', 'families')
         family(refine_cases, 't8+refined', 'families')
